@@ -169,6 +169,10 @@ class SymWorld(BaseWorld):
     def nc_exists(self, path):
         return str(path) in self.stubs.FS
 
+    def nc_del_gatt(self, path, name):
+        """remove a global attribute of a finished file (e.g. to model a file written by an older version)"""
+        self.stubs.FS[str(path)]._st["atts"].pop(name, None)
+
     def nc_files(self):
         return sorted(self.stubs.FS)
 
@@ -402,6 +406,13 @@ class RealWorld(BaseWorld):
 
     def nc_exists(self, path):
         return Path(path).exists()
+
+    def nc_del_gatt(self, path, name):
+        import netCDF4
+
+        with netCDF4.Dataset(str(path), "a") as nc:
+            if name in nc.ncattrs():
+                nc.delncattr(name)
 
     def nc_files(self):
         return sorted(str(p) for p in Path(self.scratch()).rglob("*.nc"))
